@@ -11,7 +11,7 @@
       the kernel ([append_sites_check_ok], vm_compute) and lifted to the statements
       [append_sites_safe], [write_sites_safe], [prefix_args_known], [sites_accounted].
 
-   2. A meaning for the classes ([admits]): which slice VALUES a first argument of that class can
+   2. A meaning for the classes ([may_denote]): which slice VALUES a first argument of that class can
       denote at run time, relative to the arrays that existed when the call started.
 
    3. An abstract machine over the slice heap of SliceModel/Slice.v whose steps are allocations,
@@ -25,7 +25,7 @@
 
    TRUSTED (this is why C13 is PARTIAL): the classification analysis itself (appends.go: go/ast,
    flow-insensitive, refuses what it cannot follow -> Unknown) and the reading of its classes in
-   [admits]; code outside the analysed packages (math/big, the generated protobuf code, the Go
+   [may_denote]; code outside the analysed packages (math/big, the generated protobuf code, the Go
    runtime, the injected collaborators) is assumed not to write into, nor retain, what it is
    handed, except that Unmarshal fills the object with freshly allocated data. *)
 From Coq.Strings Require Import String.
@@ -204,7 +204,7 @@ Section Machine.
     s_cap s = 0 \/ (next0 <= s_arr s /\ s_arr s < m_next m).
 
   (* what a first argument of class c can denote; Input, Unknown, PrivateState: anything at all *)
-  Definition admits (c : provenance) (m : mach) (s : gslice) : Prop :=
+  Definition may_denote (c : provenance) (m : mach) (s : gslice) : Prop :=
     match c with
     | Fresh | Decoded | OwnOutput => own_slice m s
     | PrefixField => prefix_slice s
@@ -216,10 +216,10 @@ Section Machine.
   | step_alloc content :                                 (* make, new, literals, decoding, big.Int.Bytes, ... *)
       step m {| m_heap := upd (m_heap m) (m_next m) content; m_next := S (m_next m) |}
   | step_append site s xs extra :                        (* append(x, xs...) at a site of the table *)
-      asite site -> admits (as_class site) m s ->
+      asite site -> may_denote (as_class site) m s ->
       step m {| m_heap := fst (go_append junk (m_heap m) (m_next m) extra s xs); m_next := S (m_next m) |}
   | step_write kind site s p vs :                        (* x[i] = v, copy(x, vs): inside the window of x *)
-      wsite kind site -> admits (as_class site) m s ->
+      wsite kind site -> may_denote (as_class site) m s ->
       s_len s <= s_cap s -> p + length vs <= s_len s ->
       step m {| m_heap := upd (m_heap m) (s_arr s) (write_at (s_off s + p) vs (m_heap m (s_arr s)));
                 m_next := m_next m |}.
@@ -251,19 +251,19 @@ Section Machine.
   Lemma step_protected m m' : next0 <= m_next m -> step m m' ->
     next0 <= m_next m' /\ forall j, prot j -> m_heap m' j = m_heap m j.
   Proof.
-    intros Hn Hs. destruct Hs as [content | site s xs extra Hin Hadm | kind site s p vs Hin Hadm Hlc Hp];
+    intros Hn Hs. destruct Hs as [content | site s xs extra Hin Hden | kind site s p vs Hin Hden Hlc Hp];
       cbn [m_heap m_next]; (split; [lia|]); intros j Hj; pose proof (prot_old j Hj) as Hlt.
     - apply upd_other. lia.
     - pose proof (asites_safe site Hin) as Hsafe. unfold safe_provenance in Hsafe.
-      destruct Hsafe as [Hc|[Hc|[Hc|[Hc|Hc]]]]; rewrite Hc in Hadm; cbn [admits] in Hadm.
+      destruct Hsafe as [Hc|[Hc|[Hc|[Hc|Hc]]]]; rewrite Hc in Hden; cbn [may_denote] in Hden.
       + apply append_own_keeps; auto.
       + apply append_own_keeps; auto.
       + apply append_own_keeps; auto.
       + apply append_full_keeps; auto.
-      + destruct Hadm as [Hpf|Hown]; [apply append_full_keeps|apply append_own_keeps]; auto.
+      + destruct Hden as [Hpf|Hown]; [apply append_full_keeps|apply append_own_keeps]; auto.
     - pose proof (wsites_safe kind site Hin) as Hsafe. unfold safe_write_provenance in Hsafe.
       assert (Hown : own_slice m s).
-      { destruct Hsafe as [Hc|[Hc|Hc]]; rewrite Hc in Hadm; exact Hadm. }
+      { destruct Hsafe as [Hc|[Hc|Hc]]; rewrite Hc in Hden; exact Hden. }
       destruct Hown as [Hc|[Ho _]].
       + assert (length vs = 0) by lia. destruct vs; [|simpl in *; lia].
         unfold upd. destruct (Nat.eqb j (s_arr s)) eqn:Ej; [|reflexivity].
@@ -307,7 +307,7 @@ Qed.
 
 (* ---------------------------------------------------------------- necessity of the hypotheses *)
 
-(* a prefix slice WITH spare capacity: one admitted append at a PrefixField site writes the prefix's array *)
+(* a prefix slice WITH spare capacity: one permitted append at a PrefixField site writes the prefix's array *)
 Definition site_prefix : append_site :=
   {| as_file := "builtInFunctions/x.go"; as_func := "x.ProcessBuiltinFunction"; as_ord := 0;
      as_arg := "e.keyPrefix"; as_back := false; as_class := PrefixField |}.
@@ -327,7 +327,7 @@ Proof.
   - reflexivity.
   - discriminate.
 Qed.
-(* a site of class Input admits the caller's own argument slice: with spare capacity the append
+(* a site of class Input may_denote the caller's own argument slice: with spare capacity the append
    overwrites the neighbouring argument in the same array *)
 Definition site_input : append_site :=
   {| as_file := "builtInFunctions/x.go"; as_func := "x.ProcessBuiltinFunction"; as_ord := 0;
